@@ -155,8 +155,8 @@ PROPS = {
         "rule": "per field: 24 operator forms (+,-,*,/ x value/&/&mut x binary/assign), inherent add/sub/mul/neg/square/inverse, "
                 "Field/PrimeField methods (arkworks build), Sum/Product/sum_of_products over lists of length 0,1,2,3,17, pow/power with "
                 "0..=5 exponent limbs, subtle select/assign/swap/ct_eq for Fq; operands: all pairs of a 20-element core zoo x all forms, "
-                "a seeded 1/23 sample (thorough: all) of zoo x zoo pairs (0,1,2,p-1,p-2,(p+-1)/2, every 2^k, 2^k-1, p-2^k, limb "
-                "patterns, R, R^2, R^-1, roots of unity), random pairs. Division by zero panicking is documented behaviour and only "
+                "a seeded strided sample (about 250k pairs per field, thorough 4M) of zoo x zoo pairs (0,1,2,p-1,p-2,(p+-1)/2, every 2^k, 2^k-1, p-2^k, limb "
+                "patterns, R, R^2, R^-1, roots of unity, values sharing limbs with p, recoding runs, decimal structure), random pairs. Division by zero panicking is documented behaviour and only "
                 "counted. Trivial: all operands in {0,1}." + DISTINCT,
         "text": "Reference-model monitor over the complete form catalogue; results are compared as canonical bytes.",
         "note": "trusted: num-bigint. Fq::SENTINEL and non-canonical from_montgomery_limbs inputs are outside the quantifier.",
